@@ -35,7 +35,7 @@ def run(ck):
         ck.explore(exe, ["--prog=%d" % v, "--pad-sweep=1"], "big-code-p%02d" % v, budget=0, deadline_s=40 if quick else 120, timeout_ms=30000, jobs=16)
     ck.explore(exe, ["--prog=63", "--pad-lines=33000", "--depth=2", "--ops-full=0"], "big-lines-p63", budget=0, deadline_s=40 if quick else 120, timeout_ms=30000, jobs=16)
     for v in (63, 0):
-        ck.explore(exe, ["--prog=%d" % v, "--depth=%d" % dB], "B%d-p%02d" % (dB, v), budget=0, deadline_s=50 if quick else 900, timeout_ms=30000, jobs=16)
+        ck.explore(exe, ["--prog=%d" % v, "--depth=%d" % dB, "--new-first=1"], "B%d-p%02d" % (dB, v), budget=0, deadline_s=50 if quick else 900, timeout_ms=30000, jobs=16)
     ck.explore(exe, ["--prog=-1", "--depth=%d" % (dA - 1), "--ops-full=0"], "A%d-all64" % (dA - 1), budget=0, deadline_s=45 if quick else 300, timeout_ms=30000, jobs=16)
     # one level deeper for all 64 variants: completes when the machine is free, otherwise reports how far it got
     ck.explore(exe, ["--prog=-1", "--depth=%d" % dA, "--ops-full=0"], "A%d-all64" % dA, budget=0, deadline_s=50 if quick else 1000, timeout_ms=30000, jobs=16)
